@@ -426,6 +426,12 @@ pub struct YamlSerializer<'a, W: Write> {
     folded_wrap_col: usize,
     /// Current nesting depth (used for indentation).
     depth: usize,
+    /// Columns added to `indent_step * depth` when a line is indented. A node that starts on the
+    /// line of an indicator (`- `, `? `, `: `) has its content two columns after the indicator,
+    /// whatever the indentation step is: while such a node is written, this is adjusted by
+    /// `2 - indent_step`, so that its following lines (one depth level below the indicator)
+    /// are aligned with its first line. Always 0 for the default step of 2.
+    indent_shift: isize,
     /// Whether the cursor is at the start of a line.
     at_line_start: bool,
 
@@ -523,6 +529,7 @@ impl<'a, W: Write> YamlSerializer<'a, W> {
             quote_all: false,
             yaml_12: false,
             doc_started: false,
+            indent_shift: 0,
         }
     }
     /// Construct a `YamlSerializer` with a specific indentation step.
@@ -662,6 +669,22 @@ impl<'a, W: Write> YamlSerializer<'a, W> {
         Ok(())
     }
 
+    /// Number of spaces that indent a line at `depth`.
+    #[inline]
+    fn indent_cols(&self, depth: usize) -> usize {
+        ((self.indent_step * depth) as isize + self.indent_shift).max(0) as usize
+    }
+
+    /// A node starts on the line of its indicator (`- `, `? `, `: `), one depth level below it:
+    /// align its following lines with the first one (see `indent_shift`). Returns the value to
+    /// put back into `indent_shift` when the node is complete.
+    #[inline]
+    fn shift_for_inline_node(&mut self) -> isize {
+        let saved = self.indent_shift;
+        self.indent_shift += 2 - self.indent_step as isize;
+        saved
+    }
+
     /// Ensure indentation is written if we are at the start of a line.
     /// Internal: called by most emitters before writing tokens.
     #[inline]
@@ -675,7 +698,7 @@ impl<'a, W: Write> YamlSerializer<'a, W> {
                     self.at_line_start = true;
                 }
             }
-            for _k in 0..self.indent_step * depth {
+            for _k in 0..self.indent_cols(depth) {
                 self.out.write_char(' ')?;
             }
             self.at_line_start = false;
@@ -695,11 +718,12 @@ impl<'a, W: Write> YamlSerializer<'a, W> {
     /// Write a folded block string body, wrapping to `folded_wrap_col` characters.
     /// Delegates to the standalone function in `wrapping` module.
     fn write_folded_block(&mut self, s: &str, indent: usize) -> Result<()> {
+        // The indentation is given in columns (a step of 1).
         crate::wrapping::write_folded_block(
             self.out,
             s,
-            indent,
-            self.indent_step,
+            self.indent_cols(indent),
+            1,
             self.folded_wrap_col,
         )?;
         self.at_line_start = true;
@@ -847,6 +871,7 @@ impl<'a, W: Write> YamlSerializer<'a, W> {
             self.at_line_start = false;
             return Ok(VariantFrame {
                 prev_map_depth: None,
+                restore_shift: None,
                 flow: true,
             });
         }
@@ -880,10 +905,12 @@ impl<'a, W: Write> YamlSerializer<'a, W> {
             let prev_map_depth = self.current_map_depth.replace(base + 1);
             return Ok(VariantFrame {
                 prev_map_depth: Some(prev_map_depth),
+                restore_shift: None,
                 flow: false,
             });
         }
         // Otherwise (top-level or sequence context).
+        let inline_after_dash = !self.at_line_start && self.after_dash_depth.is_some();
         if self.at_line_start {
             self.write_indent(anchored_key_depth.unwrap_or(self.depth))?;
         }
@@ -902,8 +929,12 @@ impl<'a, W: Write> YamlSerializer<'a, W> {
             .after_dash_depth
             .take()
             .map(|d| self.current_map_depth.replace(d + 1));
+        // `- Variant:` — the payload is indented under the key, which stands two columns after
+        // the dash.
+        let restore_shift = inline_after_dash.then(|| self.shift_for_inline_node());
         Ok(VariantFrame {
             prev_map_depth,
+            restore_shift,
             flow: false,
         })
     }
@@ -912,6 +943,9 @@ impl<'a, W: Write> YamlSerializer<'a, W> {
     fn end_variant(&mut self, frame: VariantFrame) -> Result<()> {
         if let Some(prev_map_depth) = frame.prev_map_depth {
             self.current_map_depth = prev_map_depth;
+        }
+        if let Some(shift) = frame.restore_shift {
+            self.indent_shift = shift;
         }
         if frame.flow {
             self.out.write_str("}")?;
@@ -1197,7 +1231,7 @@ impl<'a, 'b, W: Write> Serializer for &'a mut YamlSerializer<'b, W> {
             // We must emit an explicit indicator when the first non-empty content line
             // has leading whitespace, so the parser knows how much to strip.
             let body_base = base + 1;
-            let indent_n = self.indent_step * body_base;
+            let indent_n = self.indent_cols(body_base);
 
             // Check if we need an explicit indentation indicator.
             // Required when the first non-empty line has leading whitespace.
@@ -1268,7 +1302,7 @@ impl<'a, 'b, W: Write> Serializer for &'a mut YamlSerializer<'b, W> {
                     // should produce a single empty content line (tests expect this for "\n").
                     // Precompute body indent string once for the entire block
                     let mut indent_buf: String = String::new();
-                    let spaces = self.indent_step * body_base;
+                    let spaces = self.indent_cols(body_base);
                     if spaces > 0 {
                         indent_buf.reserve(spaces);
                         for _ in 0..spaces {
@@ -1513,6 +1547,7 @@ impl<'a, 'b, W: Write> Serializer for &'a mut YamlSerializer<'b, W> {
                 depth: depth_next,
                 flow: true,
                 first: true,
+                restore_shift: None,
             })
         } else {
             // Block sequence. Decide indentation based on whether this is after a map key or after a list dash.
@@ -1583,11 +1618,15 @@ impl<'a, 'b, W: Write> Serializer for &'a mut YamlSerializer<'b, W> {
             };
             // Starting a complex (block) sequence: drop any staged inline comment.
             self.pending_inline_comment = None;
+            // `- - a`: the first dash of this sequence stands two columns after the outer dash;
+            // align the following dashes with it.
+            let restore_shift = (inline_first && !anchored).then(|| self.shift_for_inline_node());
             Ok(SeqSer {
                 ser: self,
                 depth: depth_next,
                 flow: false,
                 first: true,
+                restore_shift,
             })
         }
     }
@@ -1611,8 +1650,8 @@ impl<'a, 'b, W: Write> Serializer for &'a mut YamlSerializer<'b, W> {
             // An ordinary tuple struct is written exactly like a tuple: as a sequence, laid out
             // for the position it is in (top level, after a dash, after a key, inside flow).
             let seq = self.serialize_seq(Some(_len))?;
-            let (depth, flow) = (seq.depth, seq.flow);
-            Ok(TupleSer::normal(seq.ser, depth, flow))
+            let (depth, flow, restore_shift) = (seq.depth, seq.flow, seq.restore_shift);
+            Ok(TupleSer::normal(seq.ser, depth, flow, restore_shift))
         }
     }
 
@@ -1647,7 +1686,7 @@ impl<'a, 'b, W: Write> Serializer for &'a mut YamlSerializer<'b, W> {
                 flow: true,
                 first: true,
                 last_key_complex: false,
-                align_after_dash: false,
+                restore_shift: None,
                 inline_value_start: false,
             })
         } else {
@@ -1721,13 +1760,16 @@ impl<'a, 'b, W: Write> Serializer for &'a mut YamlSerializer<'b, W> {
                 && _len.is_none()
                 && !inline_first
                 && !forced_newline;
+            // `- a: 1`: the first key of this mapping stands two columns after the dash; align
+            // the following keys with it.
+            let restore_shift = inline_first.then(|| self.shift_for_inline_node());
             Ok(MapSer {
                 ser: self,
                 depth: depth_next,
                 flow: false,
                 first: true,
                 last_key_complex: false,
-                align_after_dash: inline_first,
+                restore_shift,
                 inline_value_start: inline_value_start_flag,
             })
         }
@@ -1756,6 +1798,8 @@ impl<'a, 'b, W: Write> Serializer for &'a mut YamlSerializer<'b, W> {
 struct VariantFrame {
     /// `Some(previous current_map_depth)` if it was replaced for the payload.
     prev_map_depth: Option<Option<usize>>,
+    /// `Some(previous indent_shift)` if it was adjusted for the payload.
+    restore_shift: Option<isize>,
     /// Inside a flow collection: the variant opened a `{` that has to be closed.
     flow: bool,
 }
@@ -1777,6 +1821,8 @@ pub struct SeqSer<'a, 'b, W: Write> {
     flow: bool,
     /// Whether the next element is the first (comma handling in flow style).
     first: bool,
+    /// `Some(previous indent_shift)` if it was adjusted for this sequence (see `indent_shift`).
+    restore_shift: Option<isize>,
 }
 
 impl<'a, 'b, W: Write> SerializeTuple for SeqSer<'a, 'b, W> {
@@ -1879,6 +1925,9 @@ impl<'a, 'b, W: Write> SeqSer<'a, 'b, W> {
             self.ser.after_dash_depth = None;
             self.ser.inline_map_after_dash = false;
         }
+        if let Some(shift) = self.restore_shift.take() {
+            self.ser.indent_shift = shift;
+        }
         Ok(())
     }
 }
@@ -1914,17 +1963,29 @@ pub struct TupleSer<'a, 'b, W: Write> {
     comment_text: Option<String>,
 }
 enum TupleKind {
-    Normal { flow: bool }, // an ordinary tuple struct: a sequence (state of its `SeqSer`)
+    /// An ordinary tuple struct: a sequence (state of its `SeqSer`).
+    Normal {
+        flow: bool,
+        restore_shift: Option<isize>,
+    },
     AnchorStrong, // [ptr, value]
     AnchorWeak,   // [ptr, present, value]
     Commented,    // [comment, value]
 }
 impl<'a, 'b, W: Write> TupleSer<'a, 'b, W> {
     /// Create a tuple serializer for normal tuple-structs.
-    fn normal(ser: &'a mut YamlSerializer<'b, W>, depth: usize, flow: bool) -> Self {
+    fn normal(
+        ser: &'a mut YamlSerializer<'b, W>,
+        depth: usize,
+        flow: bool,
+        restore_shift: Option<isize>,
+    ) -> Self {
         Self {
             ser,
-            kind: TupleKind::Normal { flow },
+            kind: TupleKind::Normal {
+                flow,
+                restore_shift,
+            },
             idx: 0,
             depth_for_normal: depth,
             strong_alias_id: None,
@@ -1984,12 +2045,13 @@ impl<'a, 'b, W: Write> SerializeTupleStruct for TupleSer<'a, 'b, W> {
 
     fn serialize_field<T: ?Sized + Serialize>(&mut self, value: &T) -> Result<()> {
         match self.kind {
-            TupleKind::Normal { flow } => {
+            TupleKind::Normal { flow, .. } => {
                 let mut seq = SeqSer {
                     ser: &mut *self.ser,
                     depth: self.depth_for_normal,
                     flow,
                     first: self.idx == 0,
+                    restore_shift: None,
                 };
                 SerializeSeq::serialize_element(&mut seq, value)?;
             }
@@ -2118,12 +2180,17 @@ impl<'a, 'b, W: Write> SerializeTupleStruct for TupleSer<'a, 'b, W> {
     }
 
     fn end(self) -> Result<()> {
-        if let TupleKind::Normal { flow } = self.kind {
+        if let TupleKind::Normal {
+            flow,
+            restore_shift,
+        } = self.kind
+        {
             let mut seq = SeqSer {
                 ser: self.ser,
                 depth: self.depth_for_normal,
                 flow,
                 first: self.idx == 0,
+                restore_shift,
             };
             seq.finish()?;
         }
@@ -2174,8 +2241,9 @@ pub struct MapSer<'a, 'b, W: Write> {
     first: bool,
     /// Whether the most recently serialized key was a complex (non-scalar) node.
     last_key_complex: bool,
-    /// Align continuation lines under an inline-after-dash first key by adding 2 spaces.
-    align_after_dash: bool,
+    /// `Some(previous indent_shift)` if it was adjusted for this mapping, which started inline
+    /// after a dash: its following keys are aligned under the first one (see `indent_shift`).
+    restore_shift: Option<isize>,
     /// If true, this mapping began in a value position and stayed inline (after `key:`)
     /// so that an empty map can be serialized as `{}` right there. When the first key arrives,
     /// we must break the line and indent appropriately.
@@ -2219,17 +2287,8 @@ impl<'a, 'b, W: Write> SerializeMap for MapSer<'a, 'b, W> {
             match scalar_key_to_string(key, self.ser.yaml_12) {
                 Ok(text) => {
                     // Indent continuation lines. If this map started inline after a dash,
-                    // align under the first key by adding two spaces instead of a full indent step.
-                    if self.align_after_dash && self.ser.at_line_start {
-                        let base = self.depth.saturating_sub(1);
-                        for _ in 0..self.ser.indent_step * base {
-                            self.ser.out.write_char(' ')?;
-                        }
-                        self.ser.out.write_str("  ")?; // width of "- "
-                        self.ser.at_line_start = false;
-                    } else {
-                        self.ser.write_indent(self.depth)?;
-                    }
+                    // `indent_shift` aligns them under the first key.
+                    self.ser.write_indent(self.depth)?;
                     self.ser.out.write_str(&text)?;
                     // Defer the decision to put a space vs. newline until we see the value type.
                     self.ser.out.write_str(":")?;
@@ -2285,16 +2344,7 @@ impl<'a, 'b, W: Write> SerializeMap for MapSer<'a, 'b, W> {
             let saved_pending_inline_map = self.ser.pending_inline_map;
             let saved_depth = self.ser.depth;
             if self.last_key_complex {
-                if self.align_after_dash && self.ser.at_line_start {
-                    let base = self.depth.saturating_sub(1);
-                    for _ in 0..self.ser.indent_step * base {
-                        self.ser.out.write_char(' ')?;
-                    }
-                    self.ser.out.write_str("  ")?;
-                    self.ser.at_line_start = false;
-                } else {
-                    self.ser.write_indent(self.depth)?;
-                }
+                self.ser.write_indent(self.depth)?;
                 // The value node starts right after `: `, which is as wide as `- `: it is laid
                 // out like a sequence item after its dash (`: x: 3`, `: - 1`, `: |`), every
                 // following line of the value indented under the `: `.
@@ -2345,17 +2395,7 @@ impl<'a, 'b, W: Write> MapSer<'a, 'b, W> {
                 }
                 // If at line start, indent appropriately.
                 if self.ser.at_line_start {
-                    // If we are aligning after a dash, mimic the indentation logic used for keys.
-                    if self.align_after_dash {
-                        let base = self.depth.saturating_sub(1);
-                        for _ in 0..self.ser.indent_step * base {
-                            self.ser.out.write_char(' ')?;
-                        }
-                        self.ser.out.write_str("  ")?; // width of "- "
-                        self.ser.at_line_start = false;
-                    } else {
-                        self.ser.write_indent(self.depth)?;
-                    }
+                    self.ser.write_indent(self.depth)?;
                 }
                 self.ser.out.write_str("{}")?;
                 self.ser.newline()?;
@@ -2366,6 +2406,9 @@ impl<'a, 'b, W: Write> MapSer<'a, 'b, W> {
         } else {
             // Block collection finished and it was not empty.
             self.ser.last_value_was_block = true;
+        }
+        if let Some(shift) = self.restore_shift.take() {
+            self.ser.indent_shift = shift;
         }
         Ok(())
     }
